@@ -144,6 +144,28 @@ pub fn items_strs(rng: &mut Rng, allow_panic: bool, fail: bool) -> String {
     if v.is_empty() { "-".into() } else { v.join(",") }
 }
 
+/// pieces of a multi-piece `Display` with lengths around every power of two up to 1 KiB (a writer that batches
+/// small pieces and passes large ones through has its threshold somewhere there), in random order
+pub fn items_pieces_sized(rng: &mut Rng, fail: bool) -> String {
+    const LENS: [usize; 22] = [1, 2, 3, 7, 8, 9, 15, 16, 17, 31, 32, 33, 63, 64, 65, 127, 128, 129, 255, 256, 257, 1000];
+    let n = 1 + rng.below(4);
+    let mut v: Vec<String> = Vec::new();
+    for k in 0..n {
+        let len = *rng.pick(&LENS);
+        let mut t = String::new();
+        let mark = (b'a' + (k as u8 % 26)) as char;
+        while t.len() < len {
+            if t.len() + 2 <= len && rng.chance(10) { t.push('é'); } else { t.push(mark); }
+        }
+        v.push(hex(t.as_bytes()));
+    }
+    if fail && rng.chance(10) {
+        let at = rng.below(v.len() + 1);
+        v.insert(at, "E".into());
+    }
+    v.join(",")
+}
+
 pub const STATIC_TEXTS: [&str; 7] = [
     "0123456789abcdefg",                                                  // 17
     "static text of 20 by",                                               // 20
